@@ -9,7 +9,8 @@
      rows written by synchronisation (NodeToInsert, index = false): _node only, the index is not touched
      Node::delete / NodeDeletionEntry::delete_all: DELETE FROM _node, the index is not touched
    text of a row <- extract_json: every string value of the row's JSON, in key order, each followed by
-   a space (the entity of the harness has two text fields a ("32") and b ("33", nullable)).
+   a space (the entities of the harness have one or two text fields a ("32") and b ("33"), nullable:
+   a row may end up with no text at all).
    FTS5 content-less semantics as far as the code relies on it (trusted, validated by the
    correspondence runs):
      - an entry is a position list per (rowid, trigram); the most recent write for a (rowid, trigram)
@@ -76,9 +77,9 @@ Definition fts_match (ix : index) (r : N) (w : text) : bool :=
   end.
 
 (* ---- the row store of one peer (rows of the indexed entity, one room) ---- *)
-Record frow := { f_id : uid; f_rowid : N; f_a : text; f_b : option text }.
-Definition fts_text (a : text) (b : option text) : text :=
-  a ++ sp :: match b with Some t => t ++ [sp] | None => [] end.
+Record frow := { f_id : uid; f_rowid : N; f_a : option text; f_b : option text }.   (* None = null / absent *)
+Definition opt_text (o : option text) : text := match o with Some t => t ++ [sp] | None => [] end.
+Definition fts_text (a b : option text) : text := opt_text a ++ opt_text b.
 Definition row_text (r : frow) : text := fts_text (f_a r) (f_b r).
 
 Record fstate := { rows : list frow; idx : index; nrow : Z; ntok : Z }.
@@ -90,10 +91,10 @@ Definition replace_row (n : frow) (l : list frow) : list frow :=
   map (fun r => if N.eqb (f_id r) (f_id n) then n else r) l.
 
 Inductive fop :=
-| FCreate (x : uid) (a : text) (b : option text)                     (* mutate { ns.Doc{ room_id a [b] } } *)
-| FUpdate (x : uid) (a : option text) (b : option (option text))     (* mutate { ns.Doc{ id [a] [b | b:null] } } *)
+| FCreate (x : uid) (a : option text) (b : option text)              (* mutate { ns.E{ room_id [a] [b] } } *)
+| FUpdate (x : uid) (a : option (option text)) (b : option (option text))   (* mutate { ns.E{ id [a | a:null] [b | b:null] } } *)
 | FDelete (x : uid)                                                  (* delete { ns.Doc{ id } } *)
-| FSyncPut (x : uid) (a : text) (b : option text)                    (* a pull wrote this row: new row or newer version *)
+| FSyncPut (x : uid) (a : option text) (b : option text)             (* a pull wrote this row: new row or newer version *)
 | FSyncDel (x : uid)                                                 (* a pull applied a deletion record *)
 | FCheck (ws : list text).                                           (* dump the rows, search every word *)
 
@@ -122,7 +123,8 @@ Definition sort_rows (l : list frow) : list frow := fold_right ins_row [] l.
 
 Definition enc_text (t : text) : list Z := Z.of_nat (length t) :: map zn t.
 Definition enc_row (r : frow) : list Z :=
-  zn (f_id r) :: zn (f_rowid r) :: enc_text (f_a r) ++
+  zn (f_id r) :: zn (f_rowid r) ::
+  match f_a r with Some t => 1 :: enc_text t | None => [0] end ++
   match f_b r with Some t => 1 :: enc_text t | None => [0] end.
 Definition enc_ids (l : list uid) : list Z := Z.of_nat (length l) :: map zn (sort_n l).
 Definition enc_check (st : fstate) (ws : list text) : list Z :=
@@ -143,14 +145,17 @@ Definition fstep (st : fstate) (o : fop) : fstate * list Z * fevents :=
       | Some old =>
           let prev := row_text old in
           let n := {| f_id := x; f_rowid := f_rowid old;
-                      f_a := match a with Some t => t | None => f_a old end;
+                      f_a := match a with Some v => v | None => f_a old end;
                       f_b := match b with Some v => v | None => f_b old end |} in
           let cur := row_text n in
-          if (ntok st <? ntrig prev) || (nrow st <? 1)
+          (* mutation_query.rs hands the previous text on only when it is not empty (no string value
+             at all): then no 'delete' is issued and the insert counts one more document *)
+          let del := negb (Nat.eqb (length prev) 0) in
+          if del && ((ntok st <? ntrig prev) || (nrow st <? 1))
           then (st, [2], fev_none)                       (* FTS5 'delete': SQLITE_CORRUPT, transaction rolled back *)
           else ({| rows := replace_row n (rows st);
                    idx := idx_insert (f_rowid old) cur (idx_delete (f_rowid old) prev (idx st));
-                   nrow := nrow st; ntok := ntok st - ntrig prev + ntrig cur |}, [1], fev_none)
+                   nrow := nrow st + (if del then 0 else 1); ntok := ntok st - ntrig prev + ntrig cur |}, [1], fev_none)
       end
   | FDelete x =>
       match find_row x (rows st) with
@@ -193,7 +198,8 @@ Fixpoint prefix (w t : text) : bool :=
 Fixpoint contains (t w : text) : bool :=
   prefix w t || match t with [] => false | _ :: t' => contains t' w end.
 Definition row_contains (r : frow) (w : text) : bool :=
-  contains (f_a r) w || match f_b r with Some t => contains t w | None => false end.
+  match f_a r with Some t => contains t w | None => false end ||
+  match f_b r with Some t => contains t w | None => false end.
 (* search words of the property: three or more characters, no space *)
 Definition wf_term (w : text) : bool := (3 <=? length w)%nat && forallb (fun c => negb (N.eqb c sp)) w.
 Definition expected (l : list frow) (w : text) : list uid := map f_id (filter (fun r => row_contains r w) l).
